@@ -230,7 +230,28 @@ def _module_literals(tree: ast.Module) -> dict[str, ast.Constant]:
     return out
 
 
-def _normalise(fn: ast.FunctionDef, tree: ast.Module) -> ast.FunctionDef:
+def _branch_normal_form(stmts: list[ast.stmt]) -> list[ast.stmt]:
+    """`if c: ...; return/raise/continue/break` followed by more statements = `if c: ... else: <the rest>`; `if not c: A else: B` =
+    `if c: B else: A`.  Applied bottom-up to a statement list (returns a new list; the statements are modified in place)."""
+    out: list[ast.stmt] = []
+    for k, st in enumerate(stmts):
+        for fld in ('body', 'orelse', 'finalbody'):
+            sub = getattr(st, fld, None)
+            if isinstance(sub, list) and sub and isinstance(sub[0], ast.stmt):
+                setattr(st, fld, _branch_normal_form(sub))
+        if (isinstance(st, ast.If) and not st.orelse and st.body and isinstance(st.body[-1], (ast.Return, ast.Raise, ast.Continue, ast.Break))
+                and stmts[k + 1:]):
+            st.orelse = _branch_normal_form(stmts[k + 1:])
+            stmts = stmts[:k + 1]
+        if isinstance(st, ast.If) and st.orelse and isinstance(st.test, ast.UnaryOp) and isinstance(st.test.op, ast.Not):
+            st.test, st.body, st.orelse = st.test.operand, st.orelse, st.body
+        out.append(st)
+        if len(stmts) == k + 1:
+            break
+    return out
+
+
+def _normalise(fn: ast.FunctionDef, tree: ast.Module, branches: bool = False) -> ast.FunctionDef:
     """An equivalent function in which
       * module-level literal constants and function-level literal constants (`LIMIT = 1000` as a top-level statement of the body, bound
         once) are replaced by their values,
@@ -306,6 +327,10 @@ def _normalise(fn: ast.FunctionDef, tree: ast.Module) -> ast.FunctionDef:
     for _ in range(200):
         if not block(fn.body):
             break
+    if branches:
+        doc = fn.body[:1] if (fn.body and isinstance(fn.body[0], ast.Expr) and isinstance(fn.body[0].value, ast.Constant)
+                              and isinstance(fn.body[0].value.value, str)) else []
+        fn.body = doc + _branch_normal_form(fn.body[len(doc):])
     return ast.fix_missing_locations(fn)
 
 
@@ -516,16 +541,16 @@ def _write_longstring(tree: ast.Module) -> dict:
 
 
 def _fgd_escape(tree: ast.Module) -> dict:
-    fn = _fn(tree, '_fgd_escape')
+    fn = _normalise(_fn(tree, '_fgd_escape'), tree, branches=True)      # early return = if/else, `if not c` swapped
     b = _body(fn)
-    if [a.arg for a in fn.args.args] != ['extended', 'text'] or len(b) != 2:
+    if [a.arg for a in fn.args.args] != ['extended', 'text'] or len(b) != 1 or not isinstance(b[0], ast.If):
         raise TranslateError('_fgd_escape shape changed')
-    if not _is(b[0], 'if extended:\n    return escape_text(text)'):
-        raise TranslateError('_fgd_escape extended branch: ' + ast.unparse(b[0]))
-    if not isinstance(b[1], ast.Return):
+    if not (_is(b[0].test, 'extended') and len(b[0].body) == 1 and _is(b[0].body[0], 'return escape_text(text)')):
+        raise TranslateError('_fgd_escape extended branch: ' + ast.unparse(b[0])[:120])
+    if not (len(b[0].orelse) == 1 and isinstance(b[0].orelse[0], ast.Return) and b[0].orelse[0].value is not None):
         raise TranslateError('_fgd_escape plain branch is not a return')
     repl = []
-    node = b[1].value
+    node = b[0].orelse[0].value
     while _is_call_method(node, 'replace'):
         a0, a1 = node.args  # type: ignore[union-attr]
         repl.append((_const(a0, str, 'replace from'), _const(a1, str, 'replace to')))
@@ -582,7 +607,8 @@ def _engine_db() -> dict:
     # BinStrDict.__call__: base_dict index raw, own index + SHARED_STRINGS
     bsd = _cls(tree, 'BinStrDict')
     call = [n for n in bsd.body if isinstance(n, ast.FunctionDef) and n.name == '__call__']
-    if not call or not _is(_body(call[0])[0], 'if string in self.base_dict:\n    return _fmt_16bit.pack(self.base_dict[string])\n'
+    import copy
+    if not call or not _is(_branch_normal_form(_body(copy.deepcopy(call[0])))[0], 'if string in self.base_dict:\n    return _fmt_16bit.pack(self.base_dict[string])\n'
                                               'else:\n    return _fmt_16bit.pack(SHARED_STRINGS + self._dict[string])'):
         raise TranslateError('BinStrDict.__call__ not recognised')
     uns = [n for n in bsd.body if isinstance(n, ast.FunctionDef) and n.name == 'unserialise']
@@ -1290,11 +1316,14 @@ def _multi_db(tree: ast.Module) -> dict:
     dv = loop.target.id  # type: ignore[attr-defined]
     lb = loop.body
     ok = False
-    if len(lb) == 1 and isinstance(lb[0], ast.Try) and not lb[0].finalbody and len(lb[0].handlers) == 1:
+    if lb and isinstance(lb[0], ast.Try) and not lb[0].finalbody and len(lb[0].handlers) == 1:
         tr = lb[0]
         h = tr.handlers[0]
         quiet = all(isinstance(x, (ast.Pass, ast.Continue)) for x in h.body)
-        sts = list(tr.body) + list(tr.orelse)
+        # statements after the try belong to the no-exception path only when the handler leaves the iteration
+        if lb[1:] and not (h.body and isinstance(h.body[-1], ast.Continue)):
+            quiet = False
+        sts = list(tr.body) + list(tr.orelse) + list(lb[1:])
         # `return deepcopy(dbase.get_ent(c))`, possibly through a local: `ent = dbase.get_ent(c)` ... `return deepcopy(ent)`
         env2 = _single_assignments(ed)
         rets = [x for x in sts if isinstance(x, ast.Return)]
